@@ -106,18 +106,18 @@ func messageWrites(fn *ssa.Function) []write {
 			cn := calleeName(x.Common())
 			switch cn {
 			case "(net/http.Header).Set", "(net/http.Header).Add", "(net/http.Header).Del":
-				k, ok := constString(x.Common().Args[1])
+				k, ok := constString(refArgs(x.Common())[1])
 				if !ok {
-					k = "<" + describe(x.Common().Args[1]) + ">"
+					k = "<" + describe(refArgs(x.Common())[1]) + ">"
 				}
 				v := ""
 				if len(x.Common().Args) > 2 {
-					v = describe(x.Common().Args[2])
+					v = describe(refArgs(x.Common())[2])
 				}
-				out = append(out, write{fn, ownerOfHeader(x.Common().Args[0]), "header:" + strings.TrimPrefix(cn, "(net/http.Header).") + " " + k, v, ins, siteOf(ins), guardsAt(ins)})
+				out = append(out, write{fn, ownerOfHeader(refArgs(x.Common())[0]), "header:" + strings.TrimPrefix(cn, "(net/http.Header).") + " " + k, v, ins, siteOf(ins), guardsAt(ins)})
 			case "builtin delete":
-				if typeStr(x.Common().Args[0].Type()) == "net/http.Header" {
-					out = append(out, write{fn, ownerOfHeader(x.Common().Args[0]), "header:delete <" + describe(x.Common().Args[1]) + ">", "", ins, siteOf(ins), guardsAt(ins)})
+				if typeStr(refArgs(x.Common())[0].Type()) == "net/http.Header" {
+					out = append(out, write{fn, ownerOfHeader(refArgs(x.Common())[0]), "header:delete <" + describe(refArgs(x.Common())[1]) + ">", "", ins, siteOf(ins), guardsAt(ins)})
 				}
 			case "(*net/http.Request).SetBasicAuth":
 				out = append(out, write{fn, "request", "header:Set Authorization", "basic", ins, siteOf(ins), guardsAt(ins)})
@@ -241,7 +241,7 @@ func c01r2(r *R) {
 	good := len(ps) == 1 && len(regs) == 5
 	if good {
 		rv0, rv1 := returnValues(ns, 0), returnValues(ns, 1)
-		good = len(rv0) == 1 && len(rv1) == 1 && rv0[0] == regs[0].call.Common().Args[0] && rv1[0] == unbox(regs[4].call.Common().Args[1]) && rv0[0] != rv1[0]
+		good = len(rv0) == 1 && len(rv1) == 1 && rv0[0] == refArgs(regs[0].call.Common())[0] && rv1[0] == unbox(refArgs(regs[4].call.Common())[1]) && rv0[0] != rv1[0]
 	}
 	r.check(good, "NewStack#returns", ns.Pos(), "returns (outer, inner)", "NewStack does not return the outer chain and its inner group")
 	// inner group order in middlewareStack
@@ -269,7 +269,7 @@ func c01r2(r *R) {
 	r.check(before(rules, basic) && before(rules, ua), "middlewareStack#rules-before-builtins", rules.Pos(), "configured request rules run before setBasicAuth and setEmptyUserAgent", "configured header rules run after the built-in modifiers: a rule removing User-Agent (or Authorization) removes the proxy's marker, and net/http then invents a User-Agent")
 	r.check(!escapesFromEntry(ms, basic) && !escapesFromEntry(ms, ua), "middlewareStack#builtins-unconditional", basic.Pos(), "installed unconditionally", "setBasicAuth/setEmptyUserAgent are installed conditionally")
 	// configured rules loop covers the whole list
-	r.check(strings.HasPrefix(describe(rules.Common().Args[1]), "$0.config.RequestModifiers[") && reaches(rules, rules), "middlewareStack#all-rules", rules.Pos(), "every configured request modifier is added", "configured request modifiers are not all installed")
+	r.check(strings.HasPrefix(describe(refArgs(rules.Common())[1]), "$0.config.RequestModifiers[") && reaches(rules, rules), "middlewareStack#all-rules", rules.Pos(), "every configured request modifier is added", "configured request modifiers are not all installed")
 }
 
 func c01r3(r *R) {
@@ -280,7 +280,7 @@ func c01r3(r *R) {
 	rh := r.fn(mpkg+"/header", "removeHopByHopHeaders")
 	var nominated, fixed *ssa.Call
 	for _, c := range calls(rh, nameIs("(net/http.Header).Del")) {
-		k := describe(c.Common().Args[1])
+		k := describe(refArgs(c.Common())[1])
 		switch {
 		case strings.HasPrefix(k, "net/http.CanonicalHeaderKey(strings.TrimSpace(strings.Split(") && strings.Contains(k, `$0["Connection"]`):
 			nominated = c.(*ssa.Call)
@@ -294,10 +294,10 @@ func c01r3(r *R) {
 		r.bad("removeHopByHopHeaders#shape", rh.Pos(), "expected a Connection-nominated deletion loop and a fixed-table loop")
 		return
 	}
-	k := describe(nominated.Common().Args[1])
+	k := describe(refArgs(nominated.Common())[1])
 	r.check(strings.Contains(k, `$0["Connection"][`) && strings.Contains(k, `, ",")`), "removeHopByHopHeaders#nominated", nominated.Pos(), "every Connection line, split on commas, trimmed, canonicalised", "Connection-nominated names are derived as "+k)
 	r.check(before(nominated, fixed), "removeHopByHopHeaders#nominated-first", nominated.Pos(), "nominated names are deleted before the table deletes Connection itself", "the fixed table runs first: Connection is gone before the names it nominates are read")
-	r.check(describe(nominated.Common().Args[0]) == "$0" && describe(fixed.Common().Args[0]) == "$0", "removeHopByHopHeaders#same-header", rh.Pos(), "both loops act on the given header", "deletions act on a different header")
+	r.check(describe(refArgs(nominated.Common())[0]) == "$0" && describe(refArgs(fixed.Common())[0]) == "$0", "removeHopByHopHeaders#same-header", rh.Pos(), "both loops act on the given header", "deletions act on a different header")
 	// request and response modifiers both call it on their own header
 	for m, arg := range map[string]string{"ModifyRequest": "$1.Header", "ModifyResponse": "$1.Header"} {
 		fn := r.method(mpkg+"/header", "hopByHopModifier", m)
